@@ -139,6 +139,7 @@ class Env:
         self.dead = False
         self.last_user_tid = None  # newest committed transaction that is not a lock probe (undo target)
         self.user_tids = []        # all of them, oldest first
+        self.deleted = set()       # oids whose current committed record is a deletion (not loadable)
         self.buddy = None
         if self.opts.get('buddy') and parent is None and kind in BUDDY_KINDS:
             broot = os.path.join(root, 'buddy')
@@ -671,6 +672,7 @@ class Runner:
         for oid in stored:
             env.cur[oid] = tid
             env.oids.add(oid)
+            (env.deleted.add if stored[oid] is None else env.deleted.discard)(oid)
         env.alltids.append(tid)
         self.last_commit = (tid, stored)
         if label != 'next':
@@ -1306,9 +1308,15 @@ class Runner:
                     stored[op[1]] = (op[3], op[4], b'B' + bytes([op[4]]) * 17 if op[0] == 'storeblob' else None)
                 elif op[0] in ('restore', 'restoreblob') and hasattr(st, 'restore'):
                     stored[op[1]] = (op[2], op[3], b'R' + bytes([op[3]]) * 9 if op[0] == 'restoreblob' else None)
+                    if op[4] == 'cur' and op[1] in env.deleted:
+                        # restore with a back-pointer hint to the transaction that DELETED the object: the
+                        # hint is trusted (FileStorage._data_find: "also a backpointer, gotta trust it"), the
+                        # restored record points at the deletion and the object legitimately stays unloadable
+                        stored[op[1]] = None
             for oid, v in stored.items():
                 env.cur[oid] = tid
                 env.oids.add(oid)
+                (env.deleted.add if v is None else env.deleted.discard)(oid)
             env.alltids.append(tid)
             bad = []
             for oid, v in stored.items():
